@@ -38,14 +38,70 @@ def gen_array_init(rng, base, n=3):
     return o + rng.choice([", ", ","]).join(els) + c
 
 
+# Fortran has no reserved words.  Every word below means something to one of FORD's statement patterns (or to
+# the declaration decomposition); an identifier may begin with any of them (`isotope`, `typed`, `endpoint`,
+# `data_t`, `function_table`, `use_count`).  KEYWORDS is the general list; CONFUSABLE gives, per entity role (the
+# prefix the generator asks a name for), the words that the grammar allows *at the very position of the name* in
+# some other statement (`type is (..)` vs `type isotope`, `module procedure p` vs `module procedures`,
+# `end type` vs a variable `end_type`, `integer function f()` vs `integer function_f`, `block data` vs `block_x`).
+KEYWORDS = ["is", "in", "out", "inout", "type", "class", "end", "endtype", "module", "submodule", "procedure", "program",
+            "subroutine", "function", "interface", "abstract", "enum", "enumerator", "contains", "block", "blockdata",
+            "associate", "common", "namelist", "final", "generic", "use", "call", "go", "goto", "format", "data",
+            "dimension", "external", "intent", "optional", "parameter", "pointer", "private", "protected", "public",
+            "save", "target", "value", "volatile", "asynchronous", "allocatable", "bind", "integer", "real", "double",
+            "doubleprecision", "character", "complex", "logical", "result", "kind", "len", "only", "operator",
+            "assignment", "sequence", "implicit", "none", "default", "select", "case", "if", "do", "where", "pure",
+            "elemental", "recursive", "impure", "extends", "deferred", "nopass", "pass", "non_overridable", "import",
+            "include", "print", "write", "read", "null", "intrinsic", "non_intrinsic", "precision", "to"]
+CONFUSABLE = {
+    "t": ["is", "is", "is", "default", "extends", "abstract", "public", "private", "bind",
+          # a type name is also written inside the type prefix of a function statement, next to these words
+          "pure", "module", "recursive", "elemental", "impure", "non_recursive"],
+    "m": ["procedure", "subroutine", "function", "pure", "elemental", "recursive", "impure"],
+    "v": ["function", "subroutine", "is", "default", "precision", "complex", "data", "type", "end", "procedure"],
+    "p": ["is", "procedure", "function", "subroutine", "result", "bind", "type", "end"],
+    "r": ["result", "bind", "function", "is"],
+    "b": ["procedure", "generic", "final", "pass", "nopass", "deferred", "is"],
+    "g": ["operator", "assignment", "read", "write", "procedure", "generic"],
+    "e": ["enumerator", "enum", "bind", "end"],
+    "nl": ["namelist", "common", "end"],
+    "blk": ["common", "block", "data", "end"],
+    "bd": ["data", "block", "end"],
+    "prog": ["program", "end", "procedure", "function"],
+}
+KW_TAILS = ["_", "_t", "s", "x", "1", "_1", "otope", "land", "_stable"]
+
+
 class Namer:
-    def __init__(self, rng):
+    """fresh identifiers (unique without regard to case).  `kwish` = probability that a name begins with a
+    keyword (half of them with a keyword that is confusable in the role the name is asked for)."""
+
+    def __init__(self, rng, kwish=0.22):
         self.rng = rng
         self.used = set()
+        self.kwish = kwish
+        self.n_kwish = 0
 
     def fresh(self, prefix=""):
+        rng = self.rng
         for _ in range(1000):
-            n = prefix + self.rng.choice(NAMES) + (str(self.rng.randint(1, 99)) if self.rng.random() < 0.7 else "")
+            if prefix not in ("src", "c") and rng.random() < self.kwish:
+                pool = CONFUSABLE.get(prefix)
+                kw = rng.choice(pool) if pool and rng.random() < 0.6 else rng.choice(KEYWORDS)
+                r = rng.random()
+                if r < 0.35:
+                    tail = rng.choice(KW_TAILS)
+                elif r < 0.7:
+                    tail = "_" + rng.choice(NAMES) + (str(rng.randint(1, 99)) if rng.random() < 0.5 else "")
+                else:
+                    tail = rng.choice(NAMES) + (str(rng.randint(1, 99)) if rng.random() < 0.5 else "")
+                n = kw + tail
+                if n in self.used or n in KEYWORDS:
+                    continue
+                self.used.add(n)
+                self.n_kwish += 1
+                return n
+            n = prefix + rng.choice(NAMES) + (str(rng.randint(1, 99)) if rng.random() < 0.7 else "")
             if n not in self.used:
                 self.used.add(n)
                 return n
@@ -186,8 +242,15 @@ def gen_proc(rng, nm, types_visible, absints_visible, depth=0, in_interface=Fals
         for a in p["args"]:
             a["optional"] = False
     if not in_interface:
+        types_visible = list(types_visible)
+        if rng.random() < 0.2:
+            # a derived type defined in the procedure itself (no bindings: there is no module procedure to bind)
+            t = gen_type(rng, nm, list(types_visible), [], [])
+            p["types"].append(t)
+            types_visible.append(t["name"])
         for _ in range(rng.choice([0, 1, 2])):
             p["locals"].append(gen_sibling_or_new(rng, nm, p["locals"], types_visible, absints_visible, "local"))
+        p["guard_types"] = list(types_visible)
         p["exec"] = gen_exec(rng, p)
         if depth == 0 and rng.random() < 0.3:
             for _ in range(rng.choice([1, 2])):
@@ -207,7 +270,37 @@ def gen_exec(rng, p):
         "do while (i < 3)\ni = i + 1\nenddo", "integer_count = integer_count + 1", "end_flag = 1", "use_count = 2",
         "function_value = 3", "contains_x = 4", "module_x = 5", "interface_x = 6", "common_x = 7", "public_x = 8",
     ]
-    return [rng.choice(forms) for _ in range(rng.choice([0, 1, 2, 3]))]
+    out = [rng.choice(forms) for _ in range(rng.choice([0, 1, 2, 3]))]
+    if rng.random() < 0.3:
+        out.insert(rng.randrange(len(out) + 1), gen_select_type(rng, x, p.get("guard_types", [])))
+    return out
+
+
+GUARD_INTRINSIC = ["integer", "real", "real(8)", "real(kind=dp)", "logical", "complex", "character(len=*)", "character(*)",
+                   "double precision", "integer(int32)"]
+
+
+def gen_select_type(rng, x, type_names):
+    """a SELECT TYPE construct: its guards `type is (..)`, `class is (..)`, `class default` begin with the
+    keywords of a derived type definition / of a declaration and must not be documented as either"""
+    kw = lambda s_: rng.choice([s_, s_, s_.upper(), s_.capitalize()])
+    sp = lambda: rng.choice(["", " ", " ", "  "])
+    lines = [kw("select") + rng.choice([" ", " ", ""]) + kw("type") + sp() + "("
+             + rng.choice(["poly_item", "sel => poly_item", x]) + ")"]
+    for _ in range(rng.choice([1, 2, 3])):
+        r = rng.random()
+        if r < 0.5 or not type_names:
+            lines.append(kw("type") + rng.choice([" ", " ", "  "]) + kw("is") + sp() + "(" + sp() + rng.choice(GUARD_INTRINSIC) + sp() + ")")
+        elif r < 0.75:
+            lines.append(kw("type") + rng.choice([" ", "  "]) + kw("is") + sp() + "(" + sp() + rng.choice(type_names) + sp() + ")")
+        else:
+            lines.append(kw("class") + rng.choice([" ", "  "]) + kw("is") + sp() + "(" + sp() + rng.choice(type_names) + sp() + ")")
+        lines.append(rng.choice(["%s = 1" % x, "call helper(%s)" % x, "print *, 'type is (integer)'", "continue"]))
+    if rng.random() < 0.6:
+        lines.append(kw("class") + rng.choice([" ", "  "]) + kw("default"))
+        lines.append("%s = 0" % x)
+    lines.append(kw("end") + rng.choice([" ", ""]) + kw("select"))
+    return "\n".join(lines)
 
 
 def gen_type(rng, nm, types_visible, procs_visible, absints_visible):
@@ -336,11 +429,16 @@ def gen_program(rng, nm, all_modules, size):
     for mod in all_modules[:2]:
         if rng.random() < 0.6:
             p["uses"].append({"module": mod["name"], "only": None})
-    gen_scope_decls(rng, nm, p, [], [], "local", rng.randint(0, size))
+    types_visible = []
+    for _ in range(rng.choice([0, 0, 1, 2])):
+        t = gen_type(rng, nm, list(types_visible), [], [])
+        p["types"].append(t)
+        types_visible.append(t["name"])
+    gen_scope_decls(rng, nm, p, types_visible, [], "local", rng.randint(0, size))
     plain = [v["name"] for v in p["vars"] if v["type"]["base"] in ("integer", "real") and not v["attrs"] and not v["dims"] and not v["init"]]
     if len(plain) >= 2 and rng.random() < 0.4:
         p["commons"].append({"name": rng.choice([nm.fresh("blk"), None]), "vars": plain[:2]})
-    fake = {"args": [], "locals": p["vars"]}
+    fake = {"args": [], "locals": p["vars"], "guard_types": types_visible}
     p["exec"] = gen_exec(rng, fake)
     for _ in range(rng.choice([0, 0, 1, 2])):
         p["procs"].append(gen_proc(rng, nm, [], [], depth=1))
@@ -386,8 +484,48 @@ def gen_project(rng, size=3):
             else:
                 final.append(u)
         P["files"].append({"name": "f%d_%s.f90" % (fi, nm.fresh("src")), "units": final})
-    # submodule for one module with procedures (separate module procedures)
+    # separate module procedures: an interface block of `module subroutine` / `module function` bodies in a
+    # module, implemented in a submodule (as `module subroutine ...` or as `module procedure name`), now and
+    # then with a second submodule whose parent is the first
+    for f in list(P["files"]):
+        for m in [u for u in f["units"] if u["ent"] == "module"]:
+            if rng.random() < 0.25:
+                subs = gen_submodules(rng, nm, m)
+                if rng.random() < 0.5:
+                    f["units"] += subs
+                else:
+                    P["files"].append({"name": "f%d_%s.f90" % (len(P["files"]), nm.fresh("src")), "units": subs})
     return P
+
+
+def gen_submodules(rng, nm, m):
+    it = {"ent": "interface", "form": "explicit", "name": None, "bodies": [], "modprocs": [], "doc": None}
+    for _ in range(rng.choice([1, 2, 3])):
+        it["bodies"].append(gen_proc(rng, nm, [], [], in_interface=True, module_prefix=True))
+    m["interfaces"].append(it)
+    sub = {"ent": "submodule", "name": nm.fresh("sm"), "ancestor": m["name"], "parent": None, "uses": [], "vars": [],
+           "types": [], "interfaces": [], "enums": [], "commons": [], "namelists": [], "procs": [], "modprocs": [], "doc": None}
+    gen_scope_decls(rng, nm, sub, [], [], "modvar", rng.choice([0, 0, 1, 2]))
+    out = [sub]
+    if rng.random() < 0.3:
+        sub2 = dict(sub, name=nm.fresh("sm"), parent=sub["name"], vars=[], procs=[], modprocs=[])
+        out.append(sub2)
+    for b in it["bodies"]:
+        target = rng.choice(out)
+        if rng.random() < 0.5:
+            # `module procedure name` ... `end procedure`: the characteristics come from the interface
+            mp = {"name": b["name"], "locals": [], "exec": []}
+            for _ in range(rng.choice([0, 1, 2])):
+                mp["locals"].append(gen_sibling_or_new(rng, nm, mp["locals"], [], [], "local"))
+            mp["exec"] = gen_exec(rng, {"args": b["args"], "locals": mp["locals"]})
+            target["modprocs"].append(mp)
+        else:
+            q = dict(b, locals=[], exec=[], contains=[], types=[])
+            for _ in range(rng.choice([0, 1, 2])):
+                q["locals"].append(gen_sibling_or_new(rng, nm, q["locals"], [], [], "local"))
+            q["exec"] = gen_exec(rng, q)
+            target["procs"].append(q)
+    return out
 
 
 # ---------------------------------------------------------------- rendering
@@ -680,6 +818,8 @@ def render_proc(S, out, p, in_interface=False):
     out.ind += 2
     for u in p.get("uses", []):
         out.add(S.kw("use") + " " + u["module"])
+    for t in p.get("types", []):
+        render_type(S, out, t)
     decls = [a for a in p["args"] if a["declared"]]
     if p["kind"] == "function" and not p["rettype_prefix"]:
         rv = {"name": p["result"] or p["name"], "type": p["rettype"], "attrs": [], "dims": None, "intent": "",
@@ -837,6 +977,30 @@ def render_unit(S, out, u):
                 render_proc(S, out, p)
             out.ind -= 2
         out.add(end_stmt(S, "program", u["name"]))
+    elif e == "submodule":
+        anc = S.ident(u["ancestor"]) + ((S.sp() + ":" + S.sp() + S.ident(u["parent"])) if u["parent"] else "")
+        out.add(S.kw("submodule") + S.sp() + "(" + S.sp() + anc + S.sp() + ")" + S.sp() + S.ident(u["name"]))
+        out.ind += 2
+        render_scope(S, out, u)
+        out.ind -= 2
+        if u["procs"] or u["modprocs"]:
+            out.add(S.kw("contains"))
+            out.ind += 2
+            todo = [("p", p) for p in u["procs"]] + [("m", p) for p in u["modprocs"]]
+            rng.shuffle(todo)
+            for kind, p in todo:
+                if kind == "p":
+                    render_proc(S, out, p)
+                else:
+                    out.add(S.kw("module") + S.sp1() + S.kw("procedure") + rng.choice([" ", "  ", " :: ", "::"]) + S.ident(p["name"]))
+                    out.ind += 2
+                    render_spec_vars(S, out, p["locals"])
+                    for st in p["exec"]:
+                        out.add(st)
+                    out.ind -= 2
+                    out.add(end_stmt(S, "procedure", p["name"]))
+            out.ind -= 2
+        out.add(end_stmt(S, "submodule", u["name"]))
     elif e == "proc":
         render_proc(S, out, u)
     elif e == "blockdata":
@@ -909,6 +1073,7 @@ def canon_proc(p, in_interface=False):
          "attribs": sorted(x for pre in p["prefixes"] for x in pre.split()) + (["module"] if p.get("module_prefix") else []),
          "bindC": nsp(p["bindc"]),
          "variables": byname(canon_var(v) for v in p["locals"]),
+         "types": sorted((canon_type(t) for t in p.get("types", [])), key=lambda x: x["name"]),
          "procs": sorted((canon_proc(q) for q in p["contains"]), key=lambda x: x["name"])}
     c["attribs"] = sorted(c["attribs"])
     if p["kind"] == "function":
@@ -972,6 +1137,11 @@ def canon_unit(u):
     c = {"obj": e, "name": (u["name"] or "").lower()}
     c.update(canon_scope(u))
     c["procs"] = sorted((canon_proc(p) for p in u["procs"]), key=lambda x: x["name"])
+    if e == "submodule":
+        c["ancestor"] = u["ancestor"].lower()
+        c["parent"] = (u["parent"] or "").lower()
+        c["modprocs"] = sorted(({"name": p["name"].lower(), "variables": byname(canon_var(v) for v in p["locals"])}
+                                for p in u["modprocs"]), key=lambda x: x["name"])
     return c
 
 
@@ -1031,12 +1201,13 @@ def obs_proc(p, abstract_proc=None):
     o = {"obj": "proc", "proctype": p.proctype.lower(), "name": p.name.lower(), "args": args,
          "attribs": sorted(nsp(a) for a in p.attribs), "bindC": nsp(p.bindC),
          "variables": byname(obs_var(v) for v in p.variables),
+         "types": sorted((obs_type(t) for t in (getattr(p, "types", []) or [])), key=lambda x: x["name"]),
          "procs": sorted((obs_proc(q) for q in list(getattr(p, "subroutines", [])) + list(getattr(p, "functions", []))),
                          key=lambda x: x["name"])}
     if p.proctype.lower() == "function":
         o["retvar"] = obs_var(p.retvar) if hasattr(p.retvar, "vartype") else {"name": str(p.retvar).lower(), "str": True}
     extra = {}
-    for lst in ("types", "interfaces", "absinterfaces", "enums", "common", "namelists"):
+    for lst in ("interfaces", "absinterfaces", "enums", "common", "namelists"):
         n = len(getattr(p, lst, []) or [])
         if n:
             extra[lst] = n
@@ -1095,6 +1266,10 @@ def obs_file(f):
         c = {"obj": "submodule", "name": m.name.lower()}
         c.update(obs_scope(m))
         c["procs"] = sorted((obs_proc(p) for p in list(m.subroutines) + list(m.functions)), key=lambda x: x["name"])
+        c["ancestor"] = str(getattr(m.ancestor_module, "name", m.ancestor_module) or "").lower()
+        c["parent"] = str(getattr(m.parent_submodule, "name", m.parent_submodule) or "").lower()
+        c["modprocs"] = sorted(({"name": p.name.lower(), "variables": byname(obs_var(v) for v in p.variables)}
+                                for p in m.modprocedures), key=lambda x: x["name"])
         units.append(c)
     for p in f.programs:
         c = {"obj": "program", "name": uname(p.name)}
